@@ -73,7 +73,7 @@ REQUIRED = ['mode:' + m for m in MODES] + [
     'kind:gauss', 'kind:lognorm', 'kind:trunc', 'kind:pooled', 'kind:hetero', 'noncentered', 'cov', 'cov:1d', 'cov:2d',
     'red', 'ns=last', 'ns!=last', 'last:hll', 'last:set', 'last:none', 'inner:pop', 'prior:table', 'prior:cont',
     'post:poplevel', 'post:param_map', 'post:individual', 'post:default_individual', 'decoded', 'stat:hetero_rows', 'post:param_map_cycle',
-    'user_error_model_reused', 'seed:numpy_int', 'last_time_at_dose', 'fixed_then_regimen:finite']
+    'user_error_model_reused', 'seed:numpy_int', 'last_time_at_dose', 'fixed_then_regimen:finite', 'post:nan_padded_draws']
 TINY = 1e-9
 ENV_SD = 9.0
 SEEDS = st.integers(0, 2 ** 31 - 2)
@@ -181,7 +181,7 @@ def _draw_theta(draw, pop, mags, n_ids_h, cov):
     """Full (unreduced) parameter vector of a flat composition / bare leaf."""
     parts = pop['parts'] if pop['kind'] == 'comp' else [pop]
     out = []
-    d0 = 0
+    d0 = c0 = 0
     for part in parts:
         e = part['base'] if part['kind'] == 'cov' else part
         nd = e['n_dim']
@@ -189,7 +189,7 @@ def _draw_theta(draw, pop, mags, n_ids_h, cov):
         out += th0
         if part['kind'] == 'cov':
             n_cov = part['n_cov']
-            cmax = [max([abs(row[c]) for row in cov] + [0.05]) for c in range(n_cov)]
+            cmax = [max([abs(row[c0 + c]) for row in cov] + [0.05]) for c in range(n_cov)]   # (this part's own columns)
             zero = gen.chance(draw, 0.06)
             for (p, d) in ref.cov_selection(part, n_ids_h):
                 for c in range(n_cov):
@@ -201,6 +201,7 @@ def _draw_theta(draw, pop, mags, n_ids_h, cov):
                     else:
                         b = 0.2 * f * th0[p * nd + d] / (n_cov * cmax[c])
                     out.append(gen.r6(b))
+            c0 += n_cov
         d0 += nd
     return out
 
@@ -326,8 +327,19 @@ def _draw_dataset(draw, row_fn, max_chain=3, max_draw=10, max_ind=4, poplevel_on
         sub = list(draw(st.permutations(list(range(n_tot))))[:draw(st.integers(2, min(3, n_tot)))])
         for a, b in zip(sub, sub[1:] + sub[:1]):
             pmap[a] = '@%d' % b
-    return dict(n_chain=n_chain, n_draw=n_draw, ids=ids, level=level, vals=vals, map=pmap,
-                extra=draw(st.booleans()), order=list(draw(st.permutations(list(range(n_tot + 1))))))
+    pad = None
+    if n_ind >= 2 and not poplevel_only and gen.chance(draw, 0.3):
+        # inferences of different length concatenated along `individual`: the trailing draws of some individuals are
+        # NaN in every variable (chi drops the draws that are NaN for the requested individual); all parameters are
+        # individual-level then
+        level = ['indiv'] * n_tot
+        vals = [[rows[k][j] for k in range(n_cells)] for j in range(n_tot)]
+        pad = [draw(st.integers(0, n_draw - 1)) for _ in range(n_ind)]
+        pad[draw(st.integers(0, n_ind - 1))] = 0
+        if not any(pad):
+            pad[(pad.index(0) + 1) % n_ind] = n_draw - 1
+    return dict(n_chain=n_chain, n_draw=n_draw, ids=ids, level=level, vals=vals, map=pmap, pad=pad,
+                extra=draw(st.booleans()) and pad is None, order=list(draw(st.permutations(list(range(n_tot + 1))))))
 
 
 def _row_fn_plain(draw, mech, ems):
@@ -822,8 +834,12 @@ def _dataset(ds, names):
         if ds['level'][j] == 'pop':
             arr = xr.DataArray(np.array(ds['vals'][j], dtype=float).reshape(n_c, n_d), dims=['chain', 'draw'], coords=co2)
         else:
-            arr = xr.DataArray(np.array(ds['vals'][j], dtype=float).reshape(n_c, n_d, len(ids)),
-                               dims=['chain', 'draw', 'individual'], coords=co3)
+            a3 = np.array(ds['vals'][j], dtype=float).reshape(n_c, n_d, len(ids))
+            if ds.get('pad'):
+                for i_, k_ in enumerate(ds['pad']):
+                    if k_:
+                        a3[:, n_d - k_:, i_] = np.nan
+            arr = xr.DataArray(a3, dims=['chain', 'draw', 'individual'], coords=co3)
         items.append((var, arr))
     if ds['extra']:
         if ids:
@@ -849,8 +865,9 @@ def _ds_rows(ds, i):
     """Joint posterior draws (chain-major) of individual index i (population-level variables are shared)."""
     n_ind = max(1, len(ds['ids']))
     rows = []
+    n_valid = ds['n_draw'] - (ds['pad'][i] if ds.get('pad') else 0)
     for c in range(ds['n_chain']):
-        for d in range(ds['n_draw']):
+        for d in range(n_valid):
             cell = c * ds['n_draw'] + d
             rows.append([ds['vals'][j][cell] if ds['level'][j] == 'pop' else ds['vals'][j][cell * n_ind + i]
                          for j in range(len(ds['vals']))])
@@ -1588,6 +1605,22 @@ def check(case):
                               'draw (same chain and draw for every parameter) of the selected individual; single '
                               'values: %s' % (i + 1, _explain(Y[i], cands)))
 
+    if mode == 'post' and s['inner'] == 'plain' and s['ds'].get('pad') and not case.fails:
+        # every valid draw of the requested individual is used (also those beyond the number of valid draws of another
+        # individual): with n samples the chance that a given one of m draws never occurs is (1 - 1/m)^n < 1e-9 / m
+        with case.clause('padded_draws_all_used'):
+            m_rows = len(cands)
+            n_big = int(np.ceil(m_rows * (np.log(m_rows) + 21.0)))
+            big = B.values(case, B.call(n_big, seed, df), n_big, df)
+            used = set()
+            for mlist in _match_ids(big, cands):
+                used.update(c.label for c in mlist)
+            missing = [c.label for c in cands if c.label not in used]
+            case.true(not missing, 'of the %d valid posterior draws of individual %r, %d never occur among %d samples '
+                      '(first missing: %r); valid draws of the other individuals: %r' % (
+                          m_rows, s['individual'], len(missing), n_big, missing[:3],
+                          [s['ds']['n_draw'] - k_ for k_ in s['ds']['pad']]), kind='draws_unused')
+
     if mode == 'pam':
         with case.clause('model_draw'):
             cands = []
@@ -1697,6 +1730,8 @@ def classify(spec):
         labs.append('stat')
     if s.get('hstat'):
         labs.append('stat:hetero_rows')
+    if s.get('ds') and s['ds'].get('pad'):
+        labs.append('post:nan_padded_draws')
     if s.get('user_em'):
         labs.append('user_error_model_reused')
     if s.get('fix_first') and s['mech'].get('regimen') is not None:
